@@ -111,7 +111,12 @@ class Gen:
             else:
                 t = self.clock + self.rng.randint(-5000, 500)
             strat = f"ts:{max(t, 0)}"
-        self.emit(f"poll 0 #1 #1 {p} {self.consumer()} {strat} {count} {auto}")
+        if auto_ok and auto == 0 and self.rng.random() < 0.2:
+            auto = 1        # auto-commit stores the last message of THIS poll, whatever the strategy - also backwards
+        cons = self.consumer()
+        self.emit(f"poll 0 #1 #1 {p} {cons} {strat} {count} {auto}")
+        if auto == 1:
+            self.emit(f"get-offset 0 #1 #1 {p} {cons}")
 
     def full_poll(self, pid=None):
         for p in ([pid] if pid else range(1, self.nparts + 1)):
